@@ -43,6 +43,13 @@ package registry
 //@   note (C08) the registry state handed in by the caller is bound to the tree OUTSIDE this handler's transaction context, so what is written through it survives a failing transaction: the runtime descriptor and the owner index are written only after the last check that can reject the registration - after the other applications were notified (MessageRuntimeUpdated published) without an error
 //@   note when the registration is announced to the other applications (first message published), the runtime's stake claim is recorded on the account that now owns the runtime and, if the owning account changed, no longer on the previous one: the recorded claims are exactly those implied by the registered runtimes
 
+//@ func Application.registerNode
+//@   props C08 C17
+//@   requires app != nil && ctx != nil && state != nil
+//@   precall staking/state\.NewStakeAccumulatorCache$ :: argIs(0, ctx) && api.InTx(ctx)
+//@   assume-pre (common/node\.Node\.IsExpired|registry/state\.MutableState\.SetNode)$
+//@   note (C08) the stake accumulator cache binds to the state tree of the context it is created with, and its Commit writes the entity's account (with the node's replaced stake claim) to THAT tree: it is created over the handler's transaction context, so the claim written for a registration that is rejected afterwards (node update not allowed) is rolled back with it (seed C08_i created the cache before the transaction was opened: a rejected update left the entity's claim replaced)
+
 //@ func Application.unfreezeNode
 //@   props C17
 //@   requires app != nil && ctx != nil && state != nil && unfreeze != nil
